@@ -1,4 +1,5 @@
 import Goflow.Gen.History
+import Goflow.Gen.Frame
 /-! C15 generator: a sequential prologue announces templates and sampling rates; then data-only
     datagrams of every protocol from several exporters are staged and processed in parallel. -/
 namespace Goflow.Gen.C15
@@ -32,18 +33,20 @@ def gen (k : Nat) : G (List String) := do
     for _ in [0:n] do
       clock := clock + 1000
       let kind ← below 10
-      if kind < 6 then
+      if kind < (if pipe = "nf" then 6 else 4) then
         let (ei, version, dom, tid, fs) ← pick scopes
         let s ← genDataSet tid (.data fs) 8
         let m0 : Msg := ⟨version, 0, ← bitsVal 32, ← bitsVal 32, ← bitsVal 32, dom, [s]⟩
         let m := { m0 with count := max (totalRecords m0) 1 }
         out := out ++ ["stage " ++ ((pktLine pipe (exps.getD ei default) clock (encode m)).drop 4).toString]
-      else if kind < 8 ∨ pipe = "nf" then
+      else if kind < 6 ∨ pipe = "nf" then
         let e ← pick exps
         out := out ++ ["stage " ++ ((pktLine pipe e clock (← v5Datagram)).drop 4).toString]
       else
         let e ← pick exps
-        let dg ← Sflow.genDatagram
+        -- sampled headers are real layered frames (Ethernet / 802.1Q / MPLS / IPv4 / IPv6 / tunnels), so that the
+        -- workers run the dissector's parser chain concurrently
+        let dg ← Sflow.genDatagram (frame := do pure (Spec.Frame.bytes (← Frame.genFrame))) (flowOnly := true)
         out := out ++ ["stage " ++ ((pktLine pipe e clock (Spec.Sflow.encode dg)).drop 4).toString]
     let g ← pick [2, 4, 8, 16, 32]
     out := out ++ ["par " ++ toString g]
